@@ -15,6 +15,12 @@ an entry makes the unit UNDECIDED, so a new grammar function cannot escape the p
 Overlay keys are those of units/README.md plus:
   'std': False      do not add the standard grammar contract (for helpers without a `p: &mut LuaParser` parameter)
   'rank': n         position in the termination order (see gspec.rs); used as `decreases grem(old(p)), n`
+Module-level names of an items file besides ITEMS / LEMMAS / TYPES / SHIMS / EXTRA_RULES / MUTANTS / TRUSTED / ALLOW / NOT_COVERED:
+  CROSS_NEEDS = {'<fn of the OTHER side>': 'extra ensures text' | {'requires': .., 'ensures': .., 'ret': ..}}   added to the ASSUMED version of that fn (this side's unit) and to its
+                    PROVED version in the combined unit c02_grammar, until the other side writes the clause into its own items file
+  BASE_PATCH  = {'<item key of unit c01_parser>': {'ensures+': .., 'requires+': .., 'proof+': [..], 'body_first+': .., 'rules+': [..],
+                    'loops+': {..}, 'loop_invariants+': {ordinal: 'clauses'}}}   pure additions to a base item's overlay (applied in all three units; the item is re-proved)
+  a TYPES entry may carry 'place': False: no placeholder is generated, one of the SHIMS files contains `//@@ <key>` (methods of an impl)
 """
 import copy
 import importlib.util
@@ -29,6 +35,7 @@ from vc import rules as R
 
 GDIR = 'crates/emmylua_parser/src/grammar/lua/'
 FILES = {'expr': [GDIR + 'expr.rs'], 'stat': [GDIR + 'stat.rs', GDIR + 'mod.rs']}
+BASE_CALLS = {'parse_stats'}    # called by the base item parse_chunk: needed in every unit
 SKIP = {'parse_chunk'}          # proved in the base unit (c01_parser) against the contract of parse_stats
 
 STD_REQ = 'ginv(old(p))'
@@ -86,14 +93,17 @@ def make_unit(prove, name):
     section = ['', '// ' + '-' * 93, '// the Lua grammar (grammar/lua/{mod,stat,expr}.rs), extracted', '// ' + '-' * 93,
                '//@@include c02_grammar/gspec.rs']
     trusted, assumed_fns, proved_fns = [], [], []
+    proved_src = '\n'.join(X.read_source(repo, rel) for sd in prove for rel in FILES[sd])
     for side in ('expr', 'stat'):
         mod = sides[side]
         if side in prove and getattr(mod, 'LEMMAS', None):
             section.append('//@@include c02_grammar/' + mod.LEMMAS)
         for key, cfg in getattr(mod, 'TYPES', {}).items():        # enums / structs / consts the fns need (extracted)
             if key not in unit['items']:
-                unit['items'][key] = copy.deepcopy(cfg)
-                section.append('//@@ ' + key)
+                cfg = copy.deepcopy(cfg)
+                place = cfg.pop('place', True)      # 'place': False -> the `//@@ key` placeholder is written in one of the SHIMS files
+                unit['items'][key] = cfg            # (e.g. a method that must sit inside an `impl` block)
+                if place: section.append('//@@ ' + key)
         for extra in getattr(mod, 'SHIMS', []):                    # hand-written shims (specification only), one include file each
             inc = '//@@include c02_grammar/' + extra
             if inc not in section: section.append(inc)
@@ -111,6 +121,16 @@ def make_unit(prove, name):
                 ens = [cfg.get('ensures', '').strip().rstrip(',')] if cfg.get('ensures') else []
                 if std:
                     req.insert(0, STD_REQ); ens.insert(0, STD_ENS)
+                # CROSS_NEEDS of the OTHER side: extra postconditions it needs from this fn before they are written into this side's
+                # items file. Added to the ASSUMED version (other side's unit) and to the PROVED version in the combined unit
+                # c02_grammar (which fails visibly if the clause cannot be proved); not added while this side works alone.
+                other = sides['stat' if side == 'expr' else 'expr']
+                need = getattr(other, 'CROSS_NEEDS', {}).get(n)
+                if need and (side not in prove or len(prove) == 2):
+                    if isinstance(need, str): need = {'ensures': need}      # a dict may also carry 'requires' (a global invariant the
+                    if need.get('requires'): req.append(need['requires'].strip().rstrip(','))   # needing side establishes at its calls)
+                    if need.get('ensures'): ens.append(need['ensures'].strip().rstrip(','))
+                    if need.get('ret') and not cfg.get('ret'): cfg['ret'] = need['ret']
                 item = {'src': {'file': rel, 'kind': 'fn', 'name': n}}
                 if cfg.get('ret'): item['ret'] = cfg['ret']
                 if req: item['requires'] = ',\n        '.join(req)
@@ -119,11 +139,15 @@ def make_unit(prove, name):
                     for k in ('rules', 'loops', 'proof', 'body_first', 'attrs', 'iter_names', 'extra_sig', 'default_rules', 'vac'):
                         if k in cfg: item[k] = cfg[k]
                     if cfg.get('decreases'): item['decreases'] = cfg['decreases']
-                    elif rank is not None and std: item['decreases'] = 'grem(old(p)), %d' % rank
+                    elif rank is not None and std: item['decreases'] = 'grem(old(p)), %dnat' % rank   # (a bare literal has no type in a decreases tuple)
                     proved_fns.append(n)
                 else:
-                    if not (n in mod.ITEMS or std):
-                        continue                    # helper without parser access and without a written contract: not needed by the other side
+                    # ASSUMED side: only the fns the PROVED side's source files mention are needed (a fn of the other file that the
+                    # proved code cannot call adds nothing but its signature, which may use types this unit does not have); a helper
+                    # without parser access that is mentioned (e.g. is_statement_start_token) is assumed with what its entry says
+                    # (nothing: result unconstrained)
+                    if n not in BASE_CALLS and not re.search(r'\b%s\b' % re.escape(n), proved_src):
+                        continue
                     item['rules'] = [r for r in cfg.get('sig_rules', [])] + ['body-unimplemented']
                     item['attrs'] = '#[verifier::external_body]'
                     item['vac'] = False
@@ -131,6 +155,38 @@ def make_unit(prove, name):
                     assumed_fns.append(n)
                 unit['items']['g::' + n] = item
                 section.append('//@@ g::' + n)
+    # BASE_PATCH (either side, applied in all three units): additions to the overlay of an item of the base unit c01_parser that the
+    # grammar proofs need (e.g. a stronger postcondition of LuaParser::bump). Pure additions: '<k>+' appends to requires / ensures /
+    # body_first (text), proof / rules (lists), loops (dict); the strengthened item is re-proved here like every base item.
+    for side in ('expr', 'stat'):
+        for key, patch in getattr(sides[side], 'BASE_PATCH', {}).items():
+            if key not in unit['items']:
+                raise Undecided('c02_grammar: BASE_PATCH names %s, which is not an item of the base unit' % key)
+            it = unit['items'][key]
+            for k, v in patch.items():
+                if not k.endswith('+'):
+                    raise Undecided('c02_grammar: BASE_PATCH only adds (keys end in +): %s' % k)
+                k0 = k[:-1]
+                if k0 in ('requires', 'ensures'):
+                    it[k0] = (it[k0].strip().rstrip(',') + ',\n            ' if it.get(k0) else '') + v.strip().rstrip(',')
+                elif k0 == 'body_first':
+                    it[k0] = (it.get(k0, '') + '\n' + v).strip()
+                elif k0 in ('proof', 'rules'):
+                    it[k0] = list(it.get(k0, [])) + list(v)
+                elif k0 == 'loops':
+                    d = dict(it.get(k0, {}))
+                    for i, inv in v.items():
+                        d[i] = (d[i].rstrip() + '\n' + inv) if i in d else inv
+                    it[k0] = d
+                elif k0 == 'loop_invariants':      # {ordinal: 'clause, clause'} inserted right after the first `invariant` keyword
+                    d = dict(it.get('loops', {}))
+                    for i, inv in v.items():
+                        if i not in d or not re.search(r'\binvariant\b', d[i]):
+                            raise Undecided('c02_grammar: BASE_PATCH loop_invariants+: %s has no loop #%d with an invariant' % (key, i))
+                        d[i] = re.sub(r'\binvariant\b', lambda m: 'invariant\n    ' + inv.strip().rstrip(',') + ',', d[i], count=1)
+                    it['loops'] = d
+                else:
+                    raise Undecided('c02_grammar: BASE_PATCH key %s not supported' % k)
     tmpl = tmpl.replace('} // verus!', '\n'.join(section) + '\n\n} // verus!')
     if tmpl.count('//@@include c02_grammar/gspec.rs') != 1:
         raise Undecided('c02_grammar: could not place the grammar section in the base template')
@@ -141,7 +197,8 @@ def make_unit(prove, name):
             unit['extra_rules'] = list(unit.get('extra_rules', [])) + list(getattr(mod, 'EXTRA_RULES', []))
             unit['mutants'] = list(unit.get('mutants', [])) + list(getattr(mod, 'MUTANTS', []))
             trusted += list(getattr(mod, 'TRUSTED', []))
-            unit['allow'] = list(unit.get('allow', [])) + list(getattr(mod, 'ALLOW', []))
+        # the SHIMS files of BOTH sides are included in every unit, so their allow-list entries apply in every unit
+        unit['allow'] = list(unit.get('allow', [])) + list(getattr(mod, 'ALLOW', []))
     # the base unit's own mutants target base items only; keep them (they still must fail here)
     base_tr = [t for t in unit.get('trusted', []) if 'parse_stats' not in t]
     if assumed_fns:
